@@ -2,6 +2,7 @@
 package clih
 
 import (
+	pclient "github.com/cloudwego/hertz/pkg/protocol/client"
 	"context"
 	"crypto/tls"
 	"errors"
@@ -360,3 +361,35 @@ func ObserveRaw(segs [][]byte, streaming bool) RespObs {
 // Exhausted counts executions that found their pooled host client without a free connection slot (harness
 // bookkeeping: such an execution is repeated on a fresh client; the count is reported so that it can be seen to be 0).
 var Exhausted int64
+
+// ObserveRedirect lets the redirect-following helper (protocol/client.DoRequestFollowRedirects, what client.Get uses)
+// GET http://h/start against a peer whose first answer is the given raw bytes and whose later answers are plain 200s.
+// It returns every byte the client wrote: the first request and whatever request it derived from the peer's answer.
+func ObserveRedirect(segs [][]byte, streaming bool) (out []byte, res RespObs) {
+	sc := netsim.NewScriptConn(segs, netsim.EndEOF)
+	ok := []byte("HTTP/1.1 200 OK\r\nContent-Length: 2\r\n\r\nok")
+	sc.Next = [][][]byte{{ok}, {ok}}
+	c := get(streaming)
+	c.Reset(sc)
+	defer func() {
+		if r := recover(); r != nil {
+			res.Panic = fmt.Sprint(r)
+			c.Tainted = true
+		}
+		out = append([]byte(nil), sc.Out...)
+		c.Reset()
+		put(streaming, c)
+	}()
+	req, resp := protocol.AcquireRequest(), protocol.AcquireResponse()
+	defer protocol.ReleaseRequest(req)
+	defer protocol.ReleaseResponse(resp)
+	status, _, err := pclient.DoRequestFollowRedirects(context.Background(), req, resp, "http://h/start", 2, c.HC)
+	res.Status = status
+	if err != nil {
+		res.Err = CanonErr(err)
+	}
+	if resp.IsBodyStream() {
+		resp.CloseBodyStream() //nolint:errcheck
+	}
+	return
+}
